@@ -5,6 +5,7 @@
 package vsync
 
 import (
+	realsync "sync"
 	"unsafe"
 
 	"github.com/tsenart/vegeta/v12/verifshim/vsched"
@@ -36,3 +37,21 @@ func (w *WaitGroup) Wait()     { vsched.WGWait(uintptr(unsafe.Pointer(w))) }
 type Once struct{ _ byte }
 
 func (o *Once) Do(f func()) { vsched.OnceDo(uintptr(unsafe.Pointer(o)), f) }
+
+// Pool and Map are not scheduling-relevant for the explored scenarios: the
+// real ones are used (their internal synchronisation never waits for a managed
+// thread). A Pool makes object reuse depend on the real runtime; executions
+// stay deterministic as long as New is deterministic and objects are reset.
+type Pool = realsync.Pool
+type Map = realsync.Map
+
+// OnceFunc / OnceValue mirror sync.OnceFunc / sync.OnceValue on top of the shim's Once.
+func OnceFunc(f func()) func() {
+	var o Once
+	return func() { o.Do(f) }
+}
+func OnceValue[T any](f func() T) func() T {
+	var o Once
+	var v T
+	return func() T { o.Do(func() { v = f() }); return v }
+}
